@@ -47,7 +47,8 @@ THEOREMS = [
     "Verif.C09.ols_time_scale",
 ]
 TOL = 1e-9
-VARIANTS = ("base", "translate", "mirror", "shift", "scale", "time")
+VARIANTS = ("base", "translate", "mirror", "shift", "scale", "time", "far")
+BASIC = VARIANTS[1:6]  # the variants every generated case gets; "far" (a translation by a huge offset) is added explicitly
 
 # ------------------------------------------------------------------ implementation objects
 
@@ -98,6 +99,11 @@ def _tf(variant, case, frames, coords, j):
     m = case.get("meta", {})
     if variant == "translate":
         c = m["c"] * (j + 1)
+        coords = [x + c for x in coords]
+    elif variant == "far":
+        # a translation that takes the track FAR from the coordinate origin (offset >> step size): any formula that is
+        # only algebraically translation invariant (x_i^2 + x_j^2 - 2 x_i x_j, sum x^2 - n mean^2 ...) cancels here
+        c = m["far"] * (j + 1)
         coords = [x + c for x in coords]
     elif variant == "mirror":
         coords = [-x for x in coords]
@@ -561,6 +567,7 @@ REL = {  # variant -> factors of (value, var, lv)
     "translate": lambda m: (1, 1, 1),
     "mirror": lambda m: (1, 1, 1),
     "shift": lambda m: (1, 1, 1),
+    "far": lambda m: (1, 1, 1),
     "scale": lambda m: (Fr(m["a"]) ** 2, Fr(m["a"]) ** 4, Fr(m["a"]) ** 2),
     "time": lambda m: (1 / Fr(m["tc"]), 1 / Fr(m["tc"]) ** 2, 1),
 }
@@ -1102,7 +1109,7 @@ def gen_track_case(rng, nmax, stream="random", scheme=False):
     case = {"stream": stream, "kind": "track", "frames": frames, "coords": gen_coords(rng, n, exact), "exact": exact,
             "px": rng.choice(EXACT_PX if exact else LOOSE_PX), "dt": rng.choice(DTS),
             "blur": rng.choice(BLURS + [round(rng.uniform(0, 0.25), 3)]), "meta": gen_meta(rng, exact)}
-    case["variants"] = [v for v in VARIANTS[1:] if (v != "translate" or exact)]
+    case["variants"] = [v for v in BASIC if (v != "translate" or exact)]
     if n > 40:
         case["variants"] = rng.sample(case["variants"], 2)
     case["ops"] = list(ALL_OPS) if n <= 40 else rng.sample(ALL_OPS, 3)
@@ -1148,7 +1155,7 @@ def gen_ens_case(rng, tmax, nmax, stream="random", shared=False):
             "px": rng.choice(EXACT_PX if exact else LOOSE_PX), "dt": rng.choice(DTS), "blur": rng.choice(BLURS),
             "meta": gen_meta(rng, exact), "L": L, "minc": rng.choice([2, 2, 2, 3, T, 1])}
     case["ops"] = ["ensmsd", "enscve"] + (["ensols"] if L else [])
-    vs = [v for v in VARIANTS[1:] if (v != "translate" or exact)]
+    vs = [v for v in BASIC if (v != "translate" or exact)]
     case["variants"] = vs if T <= 6 else rng.sample(vs, 2)
     if L and rng.chance(0.5):
         long = [j for j, f in enumerate(frames) if len(f) >= 3]
@@ -1163,9 +1170,47 @@ def gen_ens_case(rng, tmax, nmax, stream="random", shared=False):
     return case
 
 
+# Offsets from the coordinate origin that are huge compared to any step (a kymograph position is a legitimate input wherever
+# the origin is: stage coordinates, concatenated fields of view, nm instead of um).  All are integers below 2^37, so a 1/64-pixel
+# grid position plus (a small multiple of) the offset, times a power-of-two pixel size and a scale in {3, 1.5, 2^k}, is still an
+# exact double: the translation itself introduces no rounding and the unchanged library answers bit-for-bit the same.
+FAR_OFFSETS = [2.0**26, 2.0**20, 2.0**30, 1e8, 2.0**33, 12345678.0, 2.0**36, 3.0 * 2.0**24]
+
+
+def far_offset(rng):
+    return rng.choice([1, 1, -1]) * rng.choice(FAR_OFFSETS + [2.0**26, float(rng.randint(2**18, 2**34))])
+
+
+def make_far(rng, case):
+    """move a generated track / group case far from the coordinate origin: its base positions (then every op and every
+    variant runs there; also for arbitrary doubles, where the sum is rounded and simply IS the input), and/or - on the dyadic
+    grid, where the sum is exact - through the "far" variant, which is compared with the near-origin base answer; now and then
+    the frame shift is huge as well (late frames of a long recording)"""
+    mode = rng.choice(["base", "variant", "both"]) if case["exact"] else "base"
+    ens = case["kind"] == "ens"
+    if mode != "variant":
+        if ens:  # every track of the group at its own distance, or all of them at the same one
+            o = far_offset(rng)
+            offs = [o if rng.chance(0.5) else far_offset(rng) for _ in case["coords"]]
+            case["coords"] = [[float(x + oj) for x in co] for co, oj in zip(case["coords"], offs)]
+        else:
+            o = far_offset(rng)
+            case["coords"] = [float(x + o) for x in case["coords"]]
+    case["meta"] = dict(case["meta"])
+    if mode != "base":
+        case["meta"]["far"] = far_offset(rng)
+        case["variants"] = list(case["variants"]) + ["far"]
+    if case["exact"] and rng.chance(0.3):  # the ordinary translate variant by a large amount, too
+        case["meta"]["c"] = far_offset(rng) / 64
+    if rng.chance(0.25):
+        case["meta"]["k"] = rng.choice([2**20, 10**6, 2**31, -(2**20)])
+    case["far"] = mode
+    return case
+
+
 def small_scope(quick):
     """every track of 3..5 points on frames within 0..4 (all gap patterns) with positions in {0,1,3}/4 px (first = 0)"""
-    meta = {"c": 5 / 64, "k": 3, "a": 2.0, "tc": 0.5}
+    i = 0
     for n in (3, 4, 5):
         for frames in itertools.combinations(range(5 if n < 5 else 6), n):
             if n == 5 and quick and frames[-1] == 5 and frames[0] != 0:
@@ -1173,6 +1218,8 @@ def small_scope(quick):
             for tail in itertools.product((0, 1, 3), repeat=n - 1):
                 if quick and n >= 4 and (sum(tail) + frames[-1]) % 3:
                     continue
+                i += 1  # the "far" variant cycles through the offsets 2^20 .. 2^36, 1e8 (both signs)
+                meta = {"c": 5 / 64, "k": 3, "a": 2.0, "tc": 0.5, "far": FAR_OFFSETS[i % len(FAR_OFFSETS)] * (-1) ** (i // len(FAR_OFFSETS))}
                 yield {"stream": "small-scope", "kind": "track", "frames": list(frames), "coords": [0.0] + [t / 4 for t in tail],
                        "exact": True, "px": 0.5, "dt": 0.25, "blur": 1 / 6, "meta": meta, "variants": list(VARIANTS[1:]),
                        "ops": list(ALL_OPS), "L_msd": None, "L_kmsd": 2, "L_ols": 3 if n > 3 else 2, "lv": 1 / 64,
@@ -1184,7 +1231,6 @@ def small_scope_ens(quick):
     pairs that share no lag or only lags with holes), ensemble MSD over all lags and ensemble OLS with max_lag 2 and 3"""
     xa, xb = [0, 1, 3, 2, 5, 4], [1, 0, 2, 5, 3, 7]  # quarter pixels, indexed by frame
     subsets = [fs for n in (3, 4) for fs in itertools.combinations(range(6), n)]
-    meta = {"c": 5 / 64, "k": 3, "a": 2.0, "tc": 0.5}
     i = 0
     for ia, fa in enumerate(subsets):
         for fb in subsets[ia:]:
@@ -1192,9 +1238,12 @@ def small_scope_ens(quick):
                 i += 1
                 if quick and i % 2:
                     continue
+                # every 6th pair is also moved far from the origin (the two tracks by different amounts)
+                meta = {"c": 5 / 64, "k": 3, "a": 2.0, "tc": 0.5, "far": FAR_OFFSETS[(i // 6) % len(FAR_OFFSETS)]}
                 yield {"stream": "small-scope", "kind": "ens", "frames": [list(fa), list(fb)],
                        "coords": [[xa[f] / 4 for f in fa], [xb[f] / 4 for f in fb]], "exact": True, "px": 0.5, "dt": 0.25,
-                       "blur": 0, "meta": meta, "L": None, "L_ols": L, "minc": 2, "ops": ["ensmsd", "ensols"], "variants": []}
+                       "blur": 0, "meta": meta, "L": None, "L_ols": L, "minc": 2, "ops": ["ensmsd", "ensols"],
+                       "variants": ["far"] if i % 6 == 0 else []}
 
 
 def malformed(rng, count):
@@ -1324,6 +1373,16 @@ def cases(tier, rng):
         c = gen_track_case(sub, 24 if quick else 40, scheme=True)
         c["subseed"] = i
         yield c
+    r = rng.fork("c09-far")  # tracks and groups far from the coordinate origin (offset >> step size), see make_far
+    for i in range(60 if quick else 800):
+        sub = r.fork(i)
+        if i % 3 == 2:
+            c = gen_ens_case(sub, 6 if quick else 30, 16 if quick else 24, shared=sub.chance(0.3))
+        else:
+            c = gen_track_case(sub, 30 if quick else 60, scheme=sub.chance(0.2))
+        c = make_far(sub, c)
+        c["subseed"] = i
+        yield c
 
 
 def lag_holes(case):
@@ -1347,8 +1406,16 @@ def extra_coverage(results):
     gaps = {"contiguous": 0, "missing-frames": 0}
     exact = {"dyadic-grid": 0, "arbitrary-doubles": 0}
     blur, groups = {}, {}
+    dist = {}  # largest |position| / position range of a call: how far from the origin relative to the displacements
     for r in results:
         c = r["case"]
+        if c["kind"] in ("track", "ens"):
+            for call in expand(c):
+                if call["op"] in ("msd", "ensmsd"):
+                    tl = call["coords"] if call["op"] == "ensmsd" else [call["coords"]]
+                    q = max((max(abs(x) for x in t) / (max(t) - min(t)) if max(t) > min(t) else 0.0) for t in tl if t) if any(tl) else 0.0
+                    b = "<1e3" if q < 1e3 else "1e3-1e6" if q < 1e6 else "1e6-1e9" if q < 1e9 else ">=1e9"
+                    dist[b] = dist.get(b, 0) + 1
         kinds[c["kind"]] = kinds.get(c["kind"], 0) + 1
         for call, a in zip(expand(c), r["impl"]):
             per_op[call["op"]] = per_op.get(call["op"], 0) + 1
@@ -1373,6 +1440,7 @@ def extra_coverage(results):
     return {"case_kinds": kinds, "calls_per_op": per_op, "calls_per_variant": variants, "error_kinds": errs,
             "track_lengths": sizes, "frame_gaps": gaps, "position_grid": exact, "blur_constants": blur, "group_sizes": groups,
             "cases_whose_fitted_lags_skip_a_value": holes,
+            "msd_calls_by_distance_from_origin_over_position_range": dist,
             "tolerance": "1e-9 * scale (scale computed by the model from absolute values of every term)",
             "exhaustive": False,
             "exhaustive_note": "the small-scope stream enumerates its finite space completely on thorough (strided on quick); random streams do not"}
@@ -1391,7 +1459,10 @@ RULE = (
     "follow ONE periodic sampling scheme (every s-th frame, or a repeating on/off frame mask, plus random extra missing frames) so "
     "that the lag set of the (ensemble) MSD has holes and the k-th lag is not the lag k; ensemble OLS with an explicit max_lag on "
     "every group and, on 60%, also with max_lag=None (the reported num_lags decides which MSD points the line must fit; single "
-    "tracks likewise); direct weighted_mean_and_sd and _msd_diffusion_covariance calls; seeded Brownian "
+    "tracks likewise); tracks and groups FAR from the coordinate origin (offset 2^18..2^36, 1e8 >> step size; base positions "
+    "there - dyadic grid or arbitrary doubles - and/or an exact translation there as the extra variant 'far', every track of a "
+    "group by its own amount; also in both small scopes; now and then a frame shift of 2^20..2^31), where only a formula in "
+    "terms of displacements keeps its accuracy; direct weighted_mean_and_sd and _msd_diffusion_covariance calls; seeded Brownian "
     "simulations (5-sigma band, exploration). Non-trivial: a track case with >=3 points, a numeric estimate and at least one "
     "metamorphic variant; an ensemble with >=2 tracks and a numeric answer; a malformed case that raises."
 )
